@@ -1,11 +1,12 @@
 (* Props/C11.v — Subaccount balances add up and time locks cannot be bypassed.
-   PARTIAL: ledger kernel laws, the lock bound of unlocked-balance withdrawals (true since fix 2a757de) and
-   the one-subaccount-per-owner law are proved; the ledger equation against the bank balance over
-   histories and the "locked tokens reach the owner only by being staked" clause are decided per run by the
-   Go monitor + correspondence (known finding D6: a subaccount wager leaves the unfilled remainder of the
-   stake free in the owner's account). *)
+   Proved over every history (C11_ledger): each subaccount address holds at least deposited - withdrawn - spent - lost, none
+   of the four amounts is ever negative, ids are distinct and each owner has at most one subaccount; plus the ledger kernel
+   laws, the lock bound of unlocked-balance withdrawals (true since fix 2a757de) and the creation law.
+   PARTIAL: the "exactly equal when nobody sent it tokens directly" clause and the "locked tokens reach the owner only by being
+   staked" clause are decided per run by the Go monitor + correspondence (known finding D6: a subaccount wager leaves the
+   unfilled remainder of the stake free in the owner's account). *)
 From Coq Require Import ZArith Bool List.
-From Sge Require Import Lib.Dec Model.Types Model.Chain Proofs.SubInv.
+From Sge Require Import Lib.Dec Model.Types Model.Mint Model.Chain Proofs.SubInv Proofs.SubHist Witness.C11w.
 Import ListNotations.
 Open Scope Z_scope.
 
@@ -44,3 +45,29 @@ Theorem C11_one : forall s creator owner locks s',
             pay (c_bank s) creator (SUBBASE + c_subnext s) (sa_dep x) = Some (c_bank s').
 Proof. exact sub_create_fresh. Qed.
 Print Assumptions C11_one.
+
+(* Over every history of operations signed by user accounts (addresses below the subaccount address range, which is
+   module-derived and has no keys), from any genesis whose balances in that range are not negative: *)
+Theorem C11_ledger : forall bk supply P vault MP t0 sw sd ops,
+  (forall a, SUBBASE <= a -> 0 <= bget bk a) -> Forall user_op ops ->
+  let s := run (init bk supply P vault MP t0 sw sd) ops in
+  NoDup (map sa_id (c_subs s)) /\ NoDup (map sa_owner (c_subs s)) /\
+  forall x, In x (c_subs s) ->
+    0 <= sa_dep x /\ 0 <= sa_spent x /\ 0 <= sa_wd x /\ 0 <= sa_lost x /\
+    sa_dep x - sa_wd x - sa_spent x - sa_lost x <= bget (c_bank s) (sub_addr x).
+Proof. exact subaccounts_over_histories. Qed.
+Print Assumptions C11_ledger.
+
+(* the invariant behind it is preserved by every single operation, from any state *)
+Theorem C11_ledger_step : forall s o, sinv s -> user_op o -> sinv (fst (step s o)).
+Proof. exact step_sinv. Qed.
+Print Assumptions C11_ledger_step.
+
+(* non-vacuity: a harness-generated history meets the hypotheses, ends with several subaccounts that have deposited, spent,
+   withdrawn and lost amounts *)
+Example C11_ledger_witness :
+  forallb user_opb c11w_ops = true /\
+  (let s := run c11w_init c11w_ops in
+   (2 <=? Z.of_nat (length (c_subs s))) && existsb (fun x => 0 <? sa_spent x) (c_subs s) && existsb (fun x => 0 <? sa_wd x) (c_subs s)
+   && existsb (fun x => 0 <? sa_dep x) (c_subs s) && existsb (fun x => 0 <? sa_lost x) (c_subs s)) = true.
+Proof. vm_compute. split; reflexivity. Qed.
